@@ -9,6 +9,7 @@ from sqlalchemy import and_, or_, select, Select, func, literal, not_ as sa_not
 from sqlalchemy.orm import Session
 
 from ..entity_query_language.symbolic import (
+    DomainMapping,
     SymbolicExpression,
     Attribute,
     Comparator,
@@ -723,6 +724,12 @@ class EQLTranslator:
         node = query
         while isinstance(node, Attribute):
             node = node._child_
+
+        if isinstance(node, DomainMapping):
+            # x.items[0].name, x.items().name, flatten(x.items).name: the step in the middle has no column or relationship
+            raise UnsupportedQueryTypeError(
+                f"Cannot translate an attribute of {type(node).__name__}: {node._name_}"
+            )
 
         base_class = node._type_
         if base_class is None:
